@@ -326,6 +326,10 @@ class MustAnalysis:
     def use(self, expr, state, stmt):
         pass
 
+    def loop_iter_kill(self, loop):
+        """Tokens forgotten at the start of every iteration of `loop`."""
+        return ()
+
     def on_loop_body_exit(self, loop, states_in, states_out):
         """Called with the states at loop-body entry and normal exit of one
         abstract iteration (after fixpoint)."""
@@ -352,17 +356,25 @@ class MustAnalysis:
         for s in states:
             self.use(expr, s, stmt)
 
+    def transfer(self, stmt, tokens):
+        """Optional state-dependent transfer (default: gen/kill)."""
+        return None
+
     def _apply(self, stmt, states, pseudo=None):
-        g = frozenset(self.gen(pseudo if pseudo is not None else stmt))
-        k = frozenset(self.kill_tokens(pseudo if pseudo is not None else stmt))
-        names = assigned_names(pseudo if pseudo is not None else stmt)
+        node = pseudo if pseudo is not None else stmt
+        g = frozenset(self.gen(node))
+        k = frozenset(self.kill_tokens(node))
+        names = assigned_names(node)
         out = []
         for s in states:
             f = s.facts
             if names:
                 f = f.copy()
                 f.kill(names)
-            out.append(St(f, (s.tokens - k) | g))
+            t = self.transfer(node, s.tokens)
+            if t is None:
+                t = (s.tokens - k) | g
+            out.append(St(f, frozenset(t)))
         return merge(out)
 
     def stmt(self, s, states):
@@ -506,6 +518,9 @@ class MustAnalysis:
                 cur = nxt
             if header is not None:
                 cur = self._apply(s, cur, pseudo=header)
+            lk = frozenset(self.loop_iter_kill(s))
+            if lk:
+                cur = merge([St(x.facts, x.tokens - lk) for x in cur])
             body_in = cur
             body_out = self.block(s.body, cur)
             new_head = merge(pre + body_out + ctx["continues"])
